@@ -43,6 +43,10 @@ type myErr struct{}
 func (myErr) Error() string { return "e" }
 
 type myF float64
+type myF32 float32
+type myC64 complex64
+type myI8 int8
+type myU16 uint16
 type myC complex128
 
 func fmf() myF { return 0 }
